@@ -21,4 +21,4 @@ Extraction "model.ml"
   M_Router.build_table M_Router.dispatch
   M_Auth.b64_encode M_Auth.b64_decode M_Auth.authenticate_route
   M_Parse.rl_st_index M_Parse.sl_st_index M_Parse.fl_st_index M_Parse.ck_st_index
-  M_Receive.feed M_Receive.rv_init M_Receive.cfeed M_Receive.cv_init M_Receive.receive M_Receive.creceive.
+  M_Receive.feed M_Receive.rv_init M_Receive.cfeed M_Receive.cv_init M_Receive.receive M_Receive.creceive M_Receive.retained M_Receive.read_loop.
